@@ -314,4 +314,41 @@ for c in req.get("resample", []):
         r.update(err(e))
     res.append(r)
 out["resample"] = res
+
+# ------------------------------------------------------------------ resample_blocks with EXPLICIT (irregular) decompositions,
+# called the way ResampleBlocksGradientSearchResampler.precompute/compute call it
+res = []
+for c in req.get("blocks", []):
+    r = {"decomps": []}
+    try:
+        import dask.array as da
+        src, dst = area(c["src"], "s"), area(c["dst"], "d")
+        sh = tuple(c["src"]["shape"])
+        full = arr(c["data"], sh)
+        for dc in c["decomps"]:
+            o = {}
+            try:
+                rows, cols = tuple(dc["rows"]), tuple(dc["cols"])
+                R.crop_source_area.cache_clear()
+                blocks_seen = []
+                idx = R.resample_blocks(G.gradient_resampler_indices_block, src, [], dst,
+                                        chunk_size=((2,), rows, cols), dtype=float)
+                idxv = np.asarray(idx.compute())
+                o["blocks"] = blocks_seen
+                blocks_seen = None
+                o["idx"] = [flat(idxv[0]), flat(idxv[1])]
+                sc = dc.get("src_chunks")
+                d = da.from_array(full, chunks=(tuple(sc[0]), tuple(sc[1])) if sc else sh)
+                for name, fun in (("nn", G.block_nn_interpolator), ("bil", G.block_bilinear_interpolator)):
+                    v = R.resample_blocks(fun, src, [d], dst, dst_arrays=[idx], chunk_size=(rows, cols), dtype=full.dtype)
+                    o["chunks"] = [list(map(int, ch)) for ch in v.chunks]
+                    o[name] = flat(v.compute())
+            except Exception as e:  # noqa: BLE001
+                blocks_seen = None
+                o.update(err(e))
+            r["decomps"].append(o)
+    except Exception as e:  # noqa: BLE001
+        r.update(err(e))
+    res.append(r)
+out["blocks"] = res
 json.dump(out, sys.stdout)
